@@ -20,6 +20,18 @@ def bjob(name, src, threads, rounds, defs=(), preempt='sync', tso=False, timeout
     if bounds: b.update(bounds)
     return Job(name, 'B', src=src, defs=list(defs), cbmc=['--unwind', str(unwind)], cfg=cfg, delete=list(delete), timeout=timeout, mem_gb=mem_gb, bounds=b, note=note)
 
+def cubes(job_fn, name, nthreads, parts, **kw):
+    """case split (cube-and-conquer) on the first-round preemption point of every thread: (parts+1)^nthreads sub-queries that
+    together cover exactly the schedule space of the unsplit query; the sub-queries run in parallel"""
+    import itertools
+    out = []
+    for idx in itertools.product(range(parts + 1), repeat=nthreads):
+        j = job_fn(name + '.cube' + ''.join(str(i) for i in idx), **kw)
+        j.cfg['cube'] = dict(parts=parts, index=list(idx)); j.group = name
+        j.bounds['case_split'] = 'first-round preemption point of each thread in class %s of %d (+1 = no preemption); all %d classes are run' % (list(idx), parts, (parts + 1) ** nthreads)
+        out.append(j)
+    return out
+
 def C04(tier):
     src = 'harness/C04_mutex.c'
     jobs = [
@@ -40,17 +52,15 @@ def C04(tier):
 
 def C05(tier):
     src = 'harness/C05_cond.c'
-    jobs = [
-        bjob('cond.signal.w1.r4', src, ['t0', 't1'], 4, ['-DVN=2', '-DMODE=0']),
-        bjob('cond.broadcast.w1.r4', src, ['t0', 't1'], 4, ['-DVN=2', '-DMODE=1']),
-        bjob('cond.signal_noop', 'harness/C05_signal_noop.c', ['t0', 't1'], 1, []),
-    ]
+    def cj5(name, threads, rounds, defs, **kw): return lambda n, **k2: bjob(n, src, threads, rounds, defs, **dict(kw, **k2))
+    jobs = [bjob('cond.signal.w1.r3', src, ['t0', 't1'], 3, ['-DVN=2', '-DMODE=0']),
+            bjob('cond.broadcast.w1.r3', src, ['t0', 't1'], 3, ['-DVN=2', '-DMODE=1']),
+            bjob('cond.signal_noop', 'harness/C05_signal_noop.c', ['t0', 't1'], 1, [])]
     if tier == 'thorough':
-        jobs += [
-            bjob('cond.broadcast.w2.r4', src, ['t0', 't1', 't2'], 4, ['-DVN=3', '-DMODE=2'], timeout=5400, mem_gb=16),
-            bjob('cond.signal2.w2.r4', src, ['t0', 't1', 't2'], 4, ['-DVN=3', '-DMODE=3'], timeout=5400, mem_gb=16),
-            bjob('cond.signal.w1.r5', src, ['t0', 't1'], 5, ['-DVN=2', '-DMODE=0'], timeout=5400),
-        ]
+        jobs += [bjob('cond.signal.w1.r4', src, ['t0', 't1'], 4, ['-DVN=2', '-DMODE=0'], timeout=7200, mem_gb=12),
+                 bjob('cond.broadcast.w1.r4', src, ['t0', 't1'], 4, ['-DVN=2', '-DMODE=1'], timeout=7200, mem_gb=12),
+                 bjob('cond.broadcast.w2.r3', src, ['t0', 't1', 't2'], 3, ['-DVN=3', '-DMODE=2'], timeout=14000, mem_gb=16),
+                 bjob('cond.signal2.w2.r3', src, ['t0', 't1', 't2'], 3, ['-DVN=3', '-DMODE=3'], timeout=14000, mem_gb=16)]
     return dict(jobs=jobs, assumptions=MODEL_ASSUMPTIONS,
                 functions=['myth_cond_wait_body', 'myth_cond_signal_body', 'myth_cond_broadcast_body', 'myth_wake_if_any_from_queue', 'myth_wake_all_from_queue',
                            'myth_block_on_queue', 'myth_block_on_queue_cb', 'myth_mutex_lock_body', 'myth_mutex_unlock_body', 'myth_mutex_lock (myth_if_native.c)'])
@@ -58,14 +68,14 @@ def C05(tier):
 def C06(tier):
     src = 'harness/C06_barrier.c'
     jobs = [
-        bjob('barrier.n2.k2.r4', src, ['t0', 't1'], 4, ['-DVN=2', '-DROUNDS=2'], preempt='sync'),
+        bjob('barrier.n2.k1.r3', src, ['t0', 't1'], 3, ['-DVN=2', '-DROUNDS=1'], preempt='sync'),
         bjob('barrier.n2.k1.r3.all', src, ['t0', 't1'], 3, ['-DVN=2', '-DROUNDS=1'], preempt='all'),
     ]
     if tier == 'thorough':
         jobs += [
-            bjob('barrier.n3.k2.r4', src, ['t0', 't1', 't2'], 4, ['-DVN=3', '-DROUNDS=2'], timeout=5400, mem_gb=16),
-            bjob('barrier.n2.k2.r4.all', src, ['t0', 't1'], 4, ['-DVN=2', '-DROUNDS=2'], preempt='all', timeout=5400, mem_gb=16),
-            bjob('barrier.n2.k3.r5', src, ['t0', 't1'], 5, ['-DVN=2', '-DROUNDS=3'], timeout=5400, mem_gb=16),
+            bjob('barrier.n2.k2.r6', src, ['t0', 't1'], 6, ['-DVN=2', '-DROUNDS=2'], timeout=14000, mem_gb=16),
+            bjob('barrier.n3.k1.r3', src, ['t0', 't1', 't2'], 3, ['-DVN=3', '-DROUNDS=1'], timeout=14000, mem_gb=16),
+            bjob('barrier.n2.k1.r4.all', src, ['t0', 't1'], 4, ['-DVN=2', '-DROUNDS=1'], preempt='all', timeout=14000, mem_gb=16),
         ]
     return dict(jobs=jobs, assumptions=MODEL_ASSUMPTIONS,
                 functions=['myth_barrier_wait_body', 'myth_wake_many_from_stack', 'myth_block_on_stack', 'myth_block_on_stack_cb', 'myth_sleep_stack_push', 'myth_sleep_stack_pop'])
@@ -101,13 +111,14 @@ def C08(tier):
 def C09(tier):
     src = 'harness/C09_felock.c'
     jobs = [
-        bjob('felock.p1c1.i1.r4', src, ['t0', 't1'], 4, ['-DNP=1', '-DNC=1', '-DITEMS=1']),
-        bjob('felock.p1c1.i2.r4', src, ['t0', 't1'], 4, ['-DNP=1', '-DNC=1', '-DITEMS=2'], timeout=2400),
+        bjob('felock.p1c1.i1.r3', src, ['t0', 't1'], 3, ['-DNP=1', '-DNC=1', '-DITEMS=1']),
+        bjob('felock.p1c1.i1.r3.all', src, ['t0', 't1'], 3, ['-DNP=1', '-DNC=1', '-DITEMS=1'], preempt='all', timeout=2400),
     ]
     if tier == 'thorough':
-        jobs += [bjob('felock.p2c1.i1.r4', src, ['t0', 't1', 't2'], 4, ['-DNP=2', '-DNC=1', '-DITEMS=1'], timeout=7200, mem_gb=20),
-                 bjob('felock.p1c2.i2.r4', src, ['t0', 't1', 't2'], 4, ['-DNP=1', '-DNC=2', '-DITEMS=2'], timeout=7200, mem_gb=20),
-                 bjob('felock.p1c1.i2.r6', src, ['t0', 't1'], 6, ['-DNP=1', '-DNC=1', '-DITEMS=2'], timeout=7200, mem_gb=20)]
+        jobs += [bjob('felock.p1c1.i1.r4', src, ['t0', 't1'], 4, ['-DNP=1', '-DNC=1', '-DITEMS=1'], timeout=14000, mem_gb=16),
+                 bjob('felock.p1c1.i2.r4', src, ['t0', 't1'], 4, ['-DNP=1', '-DNC=1', '-DITEMS=2'], timeout=14000, mem_gb=16),
+                 bjob('felock.p2c1.i1.r3', src, ['t0', 't1', 't2'], 3, ['-DNP=2', '-DNC=1', '-DITEMS=1'], timeout=14000, mem_gb=16),
+                 bjob('felock.p1c2.i2.r3', src, ['t0', 't1', 't2'], 3, ['-DNP=1', '-DNC=2', '-DITEMS=2'], timeout=14000, mem_gb=16)]
     return dict(jobs=jobs, assumptions=MODEL_ASSUMPTIONS,
                 functions=['myth_felock_wait_and_lock_body', 'myth_felock_mark_and_signal_body', 'myth_felock_status_body', 'myth_cond_wait (myth_if_native.c)', 'myth_cond_signal (myth_if_native.c)', 'myth_mutex_lock_body', 'myth_mutex_unlock_body'])
 
@@ -186,16 +197,18 @@ def C15(tier):
 
 
 def C17(tier):
-    N = 3 if tier == 'quick' else 4
-    jobs = [ajob('cjm.n%d' % N, 'harness/C17_cjm.c', ['-DNMAX=%d' % N], unwind=2 * N + 5, timeout=6000, mem_gb=16,
-                 replace_calls=['myth_create_ex_body:stub_create', 'myth_join_body:stub_join'],
-                 bounds=dict(n='symbolic in [0,%d]' % N, strides='arg/result/id/func stride symbolic in {8,16}, attr stride {1,2} x sizeof(attr); ids/results/attrs NULL or not; many and various variants'))]
+    N = 3 if tier == 'quick' else 5
+    combos = [(8, 8, 8, 8, 1), (16, 8, 16, 8, 2)] if tier == 'quick' else [(8, 8, 8, 8, 1), (16, 8, 16, 8, 2), (8, 16, 8, 16, 1), (16, 16, 16, 16, 2)]
+    jobs = [ajob('cjm.n%d.st%d_%d_%d_%d_%d' % ((N,) + c), 'harness/C17_cjm.c', ['-DNMAX=%d' % N, '-DST_ARG=%d' % c[0], '-DST_RES=%d' % c[1], '-DST_ID=%d' % c[2], '-DST_FN=%d' % c[3], '-DST_AT=%d' % c[4]],
+                 unwind=2 * N + 5, timeout=6000, mem_gb=16, replace_calls=['myth_create_ex_body:stub_create', 'myth_join_body:stub_join'],
+                 bounds=dict(n='symbolic in [0,%d]' % N, strides='arg/result/id/func strides %s bytes, attr stride %d x sizeof(attr) (fixed per job); ids/results/attrs NULL or not and many/various variant symbolic' % (c[:4], c[4])))
+            for c in combos]
     PLAIN = 'function(sroa,early-cse,simplifycfg,lowerswitch),globaldce'
     names = ['parallel_for', 'parallel_for_step', 'task_group']
     for i in range(3):
-        jobs.append(Job('mtbb.%s' % names[i], 'B', src='harness/C17_mtbb.cc', lang='c++', defs=['-DSCEN=%d' % i], cbmc=['--unwind', '14'], timeout=3000, mem_gb=12,
+        jobs.append(Job('mtbb.%s' % names[i], 'B', src='harness/C17_mtbb.cc', lang='c++', defs=['-DSCEN=%d' % i, '-DTASK_MEMORY_CHUNK_SZ=64', '-DTASK_GROUP_INIT_SZ=2'], cbmc=(['--unwind', '12'] if i == 2 else ['--unwind', '6', '--unwindset', 'F_verif_main.0:16,F_verif_main.1:16,F_verif_main.2:16']) + ['--object-bits', '12'], timeout=3000, mem_gb=14,
                         cfg=dict(threads=[], plain=['verif_main'], opt_pipe=PLAIN, opts={}, havoc_ok=['__cxa_pure_virtual']),
-                        bounds=dict(indices='first,last symbolic in [-2,6], range length <= 5-6, step in [1,3]; task_group: 0..10 run() calls (inline capacity 8)', unwind=14)))
+                        bounds=dict(indices='first,last symbolic in [-2,6], at most 4 indices in the range, step in [1,3]; task_group: 0..5 run() calls; header knobs TASK_MEMORY_CHUNK_SZ=64, TASK_GROUP_INIT_SZ=2 (inline capacity 2, so the overflow paths are reached early)', unwind='6 (recursion) / 12 (task_group loops)')))
     return dict(jobs=jobs, assumptions=A_ASSUME + ['myth_create_ex_body / myth_create is replaced by "run the child to completion now", myth_join by a no-op (the concurrent create/join protocol is C01)',
                                                  'C++ units verified: src/mtbb/task_group.h and src/mtbb/parallel_for.h as instantiated by harness/C17_mtbb.cc (clang++ -std=c++11 -fno-exceptions IR -> irseq plain mode -> cbmc); operator new/delete = malloc/free'],
                 functions=['myth_create_join_various_ex_body', 'myth_create_join_many_ex_body', 'myth_create_join_various_ex_aux', 'mtbb::parallel_for (2 index forms)', 'mtbb::parallel_for_aux', 'mtbb::task_group_no_prof::run/run_task/wait', 'mtbb::task_list', 'mtbb::task_memory_allocator'])
@@ -235,15 +248,16 @@ def C02(tier):
     src = 'harness/C02_deque.c'
     def dj(name, mode, threads, rounds, tso, cap=8, timeout=1800, mem=10):
         return bjob(name, src, threads, rounds, ['-DMODE=%d' % mode, '-DCAP=%d' % cap], preempt='all', tso=tso, timeout=timeout, mem_gb=mem,
-                    delete=['empty_loop'], special={}, extra_cfg=dict(env_model=None), bounds=dict(capacity=cap))
+                    delete=['empty_loop'], special={}, extra_cfg=dict(env_model=None), bounds=dict(capacity=cap), unwind=cap + 2)
     T2 = ['t0', 't1']; T3 = ['t0', 't1', 't2']
-    jobs = [dj('deque.pushpop_take.sc.r3', 0, T2, 3, False), dj('deque.pushpop_take.tso.r3', 0, T2, 3, True),
-            dj('deque.push_take2.tso.r3', 1, T2, 3, True), dj('deque.pop_take_take.tso.r3', 3, T3, 3, True)]
+    jobs = [dj('deque.pop2_take.sc.r3', 0, T2, 3, False), dj('deque.pop2_take.tso.r3', 0, T2, 3, True),
+            dj('deque.pushpop_take.tso.r3', 8, T2, 3, True), dj('deque.pop_take_take.tso.r3', 3, T3, 3, True)]
     if tier == 'thorough':
-        jobs += [dj('deque.pushpop_take.tso.r5', 0, T2, 5, True, timeout=7200, mem=20), dj('deque.3elem.tso.r4', 2, T2, 4, True, timeout=7200, mem=20),
-                 dj('deque.recentre_push.tso.r3', 4, T2, 3, True, cap=4, timeout=7200, mem=20), dj('deque.recentre_put.tso.r3', 5, T2, 3, True, cap=4, timeout=7200, mem=20),
-                 dj('deque.trypass.tso.r3', 6, T2, 3, True, timeout=7200, mem=20), dj('deque.peek.tso.r3', 7, T2, 3, True, timeout=7200, mem=20),
-                 dj('deque.push_take2.sc.r4', 1, T2, 4, False, timeout=7200, mem=20)]
+        jobs += [dj('deque.pop2_take.tso.r5', 0, T2, 5, True, timeout=10000, mem=20), dj('deque.3elem.tso.r4', 2, T2, 4, True, timeout=10000, mem=20),
+                 dj('deque.push_take2.tso.r3', 1, T2, 3, True, timeout=10000, mem=20),
+                 dj('deque.recentre_push.tso.r3', 4, T2, 3, True, cap=4, timeout=10000, mem=20), dj('deque.recentre_put.tso.r3', 5, T2, 3, True, cap=4, timeout=10000, mem=20),
+                 dj('deque.trypass.tso.r3', 6, T2, 3, True, timeout=10000, mem=20), dj('deque.peek.tso.r3', 7, T2, 3, True, timeout=10000, mem=20),
+                 dj('deque.push_take2.sc.r4', 1, T2, 4, False, timeout=10000, mem=20)]
     return dict(jobs=jobs, assumptions=DEQUE_ASSUME,
                 functions=['myth_queue_push', 'myth_queue_pop', 'myth_queue_take', 'myth_queue_put', 'myth_queue_trypass', 'myth_queue_peek', 'myth_spin_lock_body', 'myth_spin_trylock_body', 'myth_spin_unlock_body', 'myth_rwbarrier', 'myth_rbarrier', 'myth_wbarrier'])
 
@@ -293,18 +307,18 @@ def cj(name, create, finish, reap, nchild, rounds, timeout=2400, mem=12, preempt
                 bounds=dict(create=['attr NULL', 'attr from attr_init', 'attr + parent-first', 'attr + detachstate'][create], finish=['return', 'exit routine from nested frame'][finish],
                             reap=['join', 'tryjoin x2 then join', 'detach', 'none (attribute)'][reap], children=nchild))
 def C01(tier):
-    jobs = [cj('cj.null.ret.join.r4', 0, 0, 0, 1, 4), cj('cj.attr.exit.join.r4', 1, 1, 0, 1, 4), cj('cj.parentfirst.ret.join.r4', 2, 0, 0, 1, 4)]
+    jobs = [cj('cj.null.ret.join.r3', 0, 0, 0, 1, 3), cj('cj.attr.exit.join.r3', 1, 1, 0, 1, 3), cj('cj.parentfirst.ret.join.r3', 2, 0, 0, 1, 3)]
     if tier == 'thorough':
-        jobs += [cj('cj.null.ret.join.r6', 0, 0, 0, 1, 6, timeout=7200, mem=20), cj('cj.null.exit.join.2children.r4', 0, 1, 0, 2, 4, timeout=10000, mem=24),
-                 cj('cj.parentfirst.exit.join.r5', 2, 1, 0, 1, 5, timeout=7200, mem=20), cj('cj.null.ret.join.r4.all', 0, 0, 0, 1, 4, timeout=10000, mem=24, preempt='all')]
+        jobs += [cj('cj.null.ret.join.r4', 0, 0, 0, 1, 4, timeout=14000, mem=16), cj('cj.attr.exit.join.r4', 1, 1, 0, 1, 4, timeout=14000, mem=16), cj('cj.parentfirst.exit.join.r4', 2, 1, 0, 1, 4, timeout=14000, mem=16),
+                 cj('cj.null.exit.join.2children.r3', 0, 1, 0, 2, 3, timeout=14000, mem=20), cj('cj.null.ret.join.r3.all', 0, 0, 0, 1, 3, timeout=14000, mem=20, preempt='all')]
     return dict(jobs=jobs, assumptions=RICH_ASSUME,
                 functions=['myth_create_ex_body', 'myth_create_1', 'myth_entry_point', 'myth_entry_point_cleanup', 'myth_entry_point_1', 'myth_entry_point_2', 'myth_exit_body', 'myth_join_body', 'myth_join_1', 'myth_join_2', 'myth_join_3',
                            'myth_thread_attr_init_body', 'init_myth_thread_struct', 'get_new_myth_thread_struct_desc', 'get_new_myth_thread_struct_stack', 'free_myth_thread_struct_desc', 'free_myth_thread_struct_stack', 'myth_tls_tree_init', 'myth_tls_tree_fini'])
 def C13(tier):
-    jobs = [cj('reap.tryjoin.r4', 0, 0, 1, 1, 4), cj('reap.detach.r4', 0, 0, 2, 1, 4), cj('reap.attr_detached.r4', 3, 0, 3, 1, 4)]
+    jobs = [cj('reap.tryjoin.r3', 0, 0, 1, 1, 3), cj('reap.detach.r3', 0, 0, 2, 1, 3), cj('reap.attr_detached.r3', 3, 0, 3, 1, 3)]
     if tier == 'thorough':
-        jobs += [cj('reap.detach.exit.r6', 0, 1, 2, 1, 6, timeout=7200, mem=20), cj('reap.tryjoin.parentfirst.r5', 2, 0, 1, 1, 5, timeout=7200, mem=20),
-                 cj('reap.detach.r4.all', 0, 0, 2, 1, 4, timeout=10000, mem=24, preempt='all')]
+        jobs += [cj('reap.tryjoin.r4', 0, 0, 1, 1, 4, timeout=14000, mem=16), cj('reap.detach.r4', 0, 0, 2, 1, 4, timeout=14000, mem=16), cj('reap.attr_detached.r4', 3, 0, 3, 1, 4, timeout=14000, mem=16),
+                 cj('reap.detach.exit.parentfirst.r4', 2, 1, 2, 1, 4, timeout=14000, mem=16), cj('reap.detach.r3.all', 0, 0, 2, 1, 3, timeout=14000, mem=20, preempt='all')]
     return dict(jobs=jobs, assumptions=RICH_ASSUME,
                 functions=['myth_tryjoin_body', 'myth_detach_body', 'myth_join_body', 'myth_create_ex_body', 'myth_entry_point_cleanup', 'myth_entry_point_1', 'myth_entry_point_2', 'free_myth_thread_struct_desc', 'free_myth_thread_struct_stack'])
 
